@@ -35,3 +35,9 @@ CLAIMS["C08"] = (
  "Trusted: regexp/syntax as evaluator of constant classes; reference sets frozen from ECMA-262; regexp2.Regexp.String returns its source; reviewed table entries for the parser's offset invariant.",
  "static analysis: constant-table denotation check, SSA dominance/dataflow on Compile/Convert, compiler-enumerated bounds obligations",
 )
+CLAIMS["C06"] = (
+ "other",
+ "Exhaustive over the finite configuration space admitted by the parser's style table (read from the composite literal in validateParamStyle) and isSupportedParamStyle: for each (location, style, explode, shape) the runtime encoder and decoder are partially evaluated with those fields bound to constants, and (1) the delimiter constants reaching encoder sinks equal those reaching decoder sinks and both equal the OpenAPI 3.0.3 style table, (2) the encoder refuses items/names/values containing the active separator before escaping, (3) no panic is reachable on either side, including the no-value state; plus isParamAllowed is exhaustive over ir.Kind and recurses into every component type, every site enabling the uri feature is paired with it, cookie escaping tables are an inverse pair (tabulated over all bytes), and all compiler-unproven bounds checks and explicit panics of package uri are discharged. The value-level inverse decode(encode(v)) == v, empty strings/collections and escaping inside net/url are NOT decided.",
+ "Trusted: the E4 partial evaluator (loops not summarised), the reference style table frozen from OpenAPI 3.0.3, reviewed table entries (cursor invariant, nested-shape panics discharged through R06.4), generated code passes style constants (checked under C01 once built).",
+ "static analysis: finite-configuration constant propagation with branch pruning (partial evaluation of the typed AST), exhaustive enumeration of the admission table, finite-domain byte tables, compiler-enumerated bounds obligations",
+)
